@@ -80,6 +80,16 @@ claimed = {
    note="Decided at the granularity of bytes handed to the database (not the bbolt file image). One operation order. Concrete seed.",
    technique="SSA symbolic execution + SMT validity queries over a database write log",
    design="5 C04"),
+ "C15": dict(
+   text="The real Wallet.handleChainNotifications goroutine, connectBlock, disconnectBlock, addRelevantTx, Manager.SetSyncedTo/BlockHash/PutSyncedTo and Store.Rollback process notifications emitted by a chain model for every sequence of 2 (thorough 3-4) evolutions (extensions, reorgs of depth 1-2, duplicate and stale disconnects, a wallet transaction in an affected block); after each notification SyncedTo equals the model tip (height, hash, symbolic timestamp), the remembered hash of every block up to the tip is the best-chain one, and the wallet transaction is reported in a best-chain block or unconfirmed. Start-up: after a reorg of depth 1-3 while stopped, syncWithChain leaves the wallet on the last common block.",
+   note="Bounded evolution sequences; goroutine hand-off explored by the cooperative scheduler. Found and fixed the zero-hash defect in disconnectBlock.",
+   technique="SSA symbolic execution with schedule exploration, chain-model oracle, symbolic block timestamps",
+   design="5 C15"),
+ "C20": dict(
+   text="The real reliablyPublishTransaction, publishTransaction, addRelevantTx, resendUnminedTxs and Store.RemoveUnminedTx run against a backend model whose answer is one of six classes; amounts are symbolic and the balance is compared for a symbolic minconf: failure (rejection or subscription failure) leaves the transaction and its descendants unknown with balance and spendable set as before; in-mempool/accepted keeps it recorded and counted once; after resynchronisation every unconfirmed transaction is offered again parents-first.",
+   note="One or two sends per history. Found and fixed the subscription-failure defect.",
+   technique="SSA symbolic execution + SMT (symbolic amounts/minconf) with backend-answer enumeration",
+   design="5 C20"),
 }
 
 not_applicable = {
